@@ -27,6 +27,8 @@ func init() {
 			"every cycle of every unbounded loop of the recursive-descent parser consumes a real (known non-EOF) token before it returns to the loop head, or leaves the loop (consume / consume-or-report summaries with and without a peeked token, report.HasErrors() edges). " +
 			"Not decided: absence of panics on arbitrary bytes, positions inside the input, print∘parse round-trip equality as values, limit accounting (value level), depth of recursion.",
 		Mutants: []Mutant{
+			{Name: "definition keywords reset the field accounting inside selection sets (the repaired defect F26)", File: "v2/pkg/astparser/tokenizer.go", Rule: "C05-R8", Key: "TokenizeWithLimits/identifier-arm-counts-every-field",
+				Old: "\t\t\tif isDefinitionKeyword && localDepth == 0 {", New: "\t\t\tif isDefinitionKeyword {"},
 			{Name: "closing brace of a schema definition written blindly (the repaired defect F22)", File: "v2/pkg/astprinter/astprinter.go", Rule: "C05-R3", Key: "printer-siblings-content/Leave:Schema",
 				Old: "\tif len(p.document.SchemaDefinitions[ref].RootOperationTypeDefinitions.Refs) == 0 {\n\t\t// the opening brace is written by the first root operation type definition\n\t\tp.write(literal.LBRACE)\n\t}\n", New: ""},
 			{Name: "shorthand query chosen although the operation has directives (the repaired defect F21)", File: "v2/pkg/astprinter/astprinter.go", Rule: "C05-R7", Key: "EnterOperationDefinition/query-keyword-guard",
@@ -112,6 +114,9 @@ func runC05(r *fw.Run) {
 
 	// ---- R7 shorthand query ----------------------------------------------------------------------------
 	shorthandQueryGuard(r)
+
+	// ---- R8 limit accounting ---------------------------------------------------------------------------
+	limitCountsEveryField(r)
 }
 
 // checkProgress implements the loop-progress rule for one package and returns the number of loops examined.
@@ -1493,4 +1498,146 @@ func shorthandQueryGuard(r *fw.Run) {
 	}
 	walk(fi.Decl.Body, nil)
 	r.Expect("C05-R7", "writes of the query keyword", n, 1)
+}
+
+// limitCountsEveryField (R8): ParseWithLimits counts fields while tokenizing. Inside a selection set every identifier that
+// does not follow a spread is a field (or alias) and has to be counted: every path through the identifier arm of
+// TokenizeWithLimits either increments the field counter, or passed an edge that says "not inside a selection set"
+// (localDepth == 0) or "this is the name after a spread". An arm that treats some identifiers differently without looking
+// at the depth (the definition keywords query / mutation / subscription / fragment are legal field names) lets a document
+// through whose real field count exceeds the limit.
+func limitCountsEveryField(r *fw.Run) {
+	p := r.Prog
+	r.Rule("C05-R8", "every path through the identifier arm of TokenizeWithLimits counts the identifier as a field, or passed an edge that says it is not inside a selection set (localDepth == 0) or that it follows a spread")
+	fi := p.Func("astparser", "Tokenizer.TokenizeWithLimits")
+	if fi == nil {
+		r.Error("C05-R8: Tokenizer.TokenizeWithLimits not found")
+		return
+	}
+	info := fi.Info()
+	// the counter: the local that is compared with limits.MaxFields
+	var counter, depth, spread types.Object
+	fw.WalkAll(fi.Decl.Body, func(nd ast.Node) bool {
+		if be, ok := nd.(*ast.BinaryExpr); ok {
+			for _, pr := range [][2]ast.Expr{{be.X, be.Y}, {be.Y, be.X}} {
+				if sel, isSel := ast.Unparen(pr[1]).(*ast.SelectorExpr); isSel && sel.Sel.Name == "MaxFields" {
+					counter = fw.RootObj(info, pr[0])
+				}
+			}
+		}
+		if as, ok := nd.(*ast.AssignStmt); ok && len(as.Lhs) == 1 && len(as.Rhs) == 1 {
+			if id, isID := as.Lhs[0].(*ast.Ident); isID {
+				o := info.Defs[id]
+				if o == nil {
+					o = info.Uses[id]
+				}
+				if o != nil && strings.Contains(strings.ToLower(o.Name()), "localdepth") && !strings.Contains(strings.ToLower(o.Name()), "peak") {
+					depth = o
+				}
+				if o != nil && strings.Contains(strings.ToLower(o.Name()), "spread") {
+					spread = o
+				}
+			}
+		}
+		return true
+	})
+	if counter == nil || depth == nil || spread == nil {
+		r.Error("C05-R8: field counter / selection depth / spread flag of TokenizeWithLimits not identified")
+		return
+	}
+	// the identifier arm of the token dispatch
+	var arm *ast.CaseClause
+	fw.WalkAll(fi.Decl.Body, func(nd ast.Node) bool {
+		if cc, ok := nd.(*ast.CaseClause); ok && arm == nil {
+			for _, v := range cc.List {
+				if c := fw.ConstObj(info, v); c != nil && c.Name() == "IDENT" && strings.HasSuffix(c.Pkg().Path(), "/keyword") {
+					arm = cc
+				}
+			}
+		}
+		return true
+	})
+	if arm == nil {
+		r.Error("C05-R8: identifier arm of TokenizeWithLimits not found")
+		return
+	}
+	// depthIsZero: e evaluating to branch implies localDepth == 0 (or <= 0)
+	var depthIsZero func(e ast.Expr, branch bool) bool
+	depthIsZero = func(e ast.Expr, branch bool) bool {
+		be, ok := ast.Unparen(e).(*ast.BinaryExpr)
+		if !ok {
+			return false
+		}
+		if be.Op == token.LAND && branch { // a && b true: both true
+			return depthIsZero(be.X, true) || depthIsZero(be.Y, true)
+		}
+		if fw.RootObj(info, be.X) != depth {
+			return false
+		}
+		cv, isC := fw.ConstVal(info, be.Y)
+		if !isC || cv != "0" {
+			return false
+		}
+		switch {
+		case be.Op == token.GTR && !branch, be.Op == token.EQL && branch, be.Op == token.NEQ && !branch, be.Op == token.LEQ && branch:
+			return true
+		}
+		return false
+	}
+	zeroDepthFlag := func(o types.Object) bool {
+		any, all := false, true
+		fw.WalkAll(fi.Decl.Body, func(nd ast.Node) bool {
+			as, ok := nd.(*ast.AssignStmt)
+			if !ok {
+				return true
+			}
+			for i, l := range as.Lhs {
+				id, isID := l.(*ast.Ident)
+				if !isID || (info.Defs[id] != o && info.Uses[id] != o) || i >= len(as.Rhs) {
+					continue
+				}
+				any = true
+				rhs := ast.Unparen(as.Rhs[i])
+				if cv, isC := fw.ConstVal(info, rhs); isC && cv == "false" {
+					continue
+				}
+				if !depthIsZero(rhs, true) {
+					all = false
+				}
+			}
+			return true
+		})
+		return any && all
+	}
+	in := fw.NewInterp(fi)
+	in.H = fw.Hooks{
+		Node: func(nd ast.Node, st *fw.State) {
+			if inc, ok := nd.(*ast.IncDecStmt); ok && inc.Tok == token.INC && fw.RootObj(info, inc.X) == counter {
+				st.Set("accounted")
+			}
+			if as, ok := nd.(*ast.AssignStmt); ok && as.Tok == token.ADD_ASSIGN && len(as.Lhs) == 1 && fw.RootObj(info, as.Lhs[0]) == counter {
+				st.Set("accounted")
+			}
+		},
+		Cond: func(e ast.Expr, branch bool, st *fw.State) {
+			e = ast.Unparen(e)
+			if id, ok := e.(*ast.Ident); ok && info.Uses[id] == spread && branch {
+				st.Set("accounted") // the name of a fragment spread
+			}
+			if depthIsZero(e, branch) {
+				st.Set("accounted") // not inside a selection set
+			}
+			// a boolean local that is only ever assigned false or a depth-is-zero test: true means "outside a selection set"
+			if id, ok := e.(*ast.Ident); ok && branch {
+				if o := info.Uses[id]; o != nil && o != spread {
+					if _, isVar := o.(*types.Var); isVar && zeroDepthFlag(o) {
+						st.Set("accounted")
+					}
+				}
+			}
+		},
+	}
+	end := in.RunStmts(arm.Body, nil)
+	r.Check(end == nil || end.Must("accounted"), "C05-R8", fi.Name()+"/identifier-arm-counts-every-field", p.Pos(arm.Pos()), "every path through the identifier arm counts the identifier, or knows it is outside a selection set / the name after a spread",
+		"some identifiers leave the arm uncounted without the depth having been looked at: a field (or alias) that is spelled like a definition keyword — query, mutation, subscription, fragment are legal field names — is not counted and resets the per-definition bookkeeping, so the fields after it are not counted either: `{ query a a a … }` passes ParseWithLimits whatever MaxFields says")
 }
